@@ -4,7 +4,7 @@ open Node
 
 theorem Er_strip_pname {cx : Cx} {lo hi : Nat} {m : String} {msp : Span} {p2 : Node}
     (h : Er cx lo hi (.pname m msp) p2) : strip p2 = .pname m Span.dummy := by
-  obtain ⟨X, Δ, eX, sX, _⟩ := h cx.base cx.ext_base
+  obtain ⟨X, Δ, eX, sX, _⟩ := h _ (BRg.refl _) cx.base cx.ext_base
   simp only [erase] at eX
   have hX : X = .pname m msp := (congrArg Prod.fst eX).symm
   rw [hX] at sX
@@ -24,31 +24,33 @@ theorem proto_not_receiver (cx : Cx) (lo hi : Nat) (o' p' : Node) (sp' : Span) (
     (hD : Deep lo hi (.member o' p' sp') (.member o p sp2))
     (hsrc : srcOk o = true)
     (hclash : (o.span == thisSrc.span) = false ∧ o.span.isDummy = false) :
-    ∀ σ', cx.ext σ' → ∀ X, Sim X thisSrc → ∀ Xs,
-      resolveCall (erase σ' (.member o' p' sp')).1 ca csp csp (.arg none X :: Xs) csp =
-        .call (.member (erase σ' (.member o' p' sp')).1 (.pname ca csp) csp) (.arg none X :: Xs) csp := by
-  intro σ' _ X sX Xs
+    ∀ member'', BRg (.member o' p' sp') member'' → ∀ σ', cx.ext σ' → ∀ X, Sim X thisSrc → ∀ Xs,
+      resolveCall (erase σ' member'').1 ca csp csp (.arg none X :: Xs) csp =
+        .call (.member (erase σ' member'').1 (.pname ca csp) csp) (.arg none X :: Xs) csp := by
+  intro member'' hm'' σ' _ X sX Xs
+  obtain ⟨o'', p'', rfl, ho'', _⟩ := hm''.member_inv
   simp only [Deep] at hD
   obtain ⟨_, hEo, _, _, _, hid⟩ := hD
-  have hF : (erase σ' (.member o' p' sp')).1 = .member (erase σ' o').1 (erase (erase σ' o').2 p').1 sp' := by
+  have hF : (erase σ' (.member o'' p'' sp')).1 = .member (erase σ' o'').1 (erase (erase σ' o'').2 p'').1 sp' := by
     simp only [erase]
   rw [hF]
   -- the erased object of the path carries the position of the source object
-  have hspan : (erase σ' o').1.span = o.span := by
-    obtain ⟨Xo, Δ, eXo, sXo, _⟩ := hEo σ'
+  have hspan : (erase σ' o'').1.span = o.span := by
+    obtain ⟨Xo, Δ, eXo, sXo, _⟩ := hEo o'' ho'' σ'
     rw [eXo]
     simp only
     cases ho : o' with
     | ident nm isp =>
       have := hid (by rw [ho]; rfl)
-      rw [ho] at this
+      rw [ho] at this ho''
       subst this
-      rw [ho, erase_src _ hsrc] at eXo
+      rw [BRg_noBlk (noBlk_ident _ _) ho'', erase_src _ hsrc] at eXo
       have := congrArg Prod.fst eXo
       simp only at this
       rw [← this]
     | member a b msp =>
-      rw [ho] at eXo
+      rw [ho] at ho''
+      obtain ⟨a'', b'', rfl, _, _⟩ := ho''.member_inv
       simp only [erase] at eXo
       have hXo := (congrArg Prod.fst eXo).symm
       simp only at hXo
@@ -64,8 +66,8 @@ theorem proto_not_receiver (cx : Cx) (lo hi : Nat) (o' p' : Node) (sp' : Span) (
       | _ => simp [strip] at h1
     | _ =>
       rcases staticPath_obj hstat with ⟨nm, isp, h⟩ | ⟨a, b, msp, h⟩ <;> rw [h] at ho <;> cases ho
-  have hne : ((erase σ' o').1 == X) = false := by
-    cases hbeq : ((erase σ' o').1 == X) with
+  have hne : ((erase σ' o'').1 == X) = false := by
+    cases hbeq : ((erase σ' o'').1 == X) with
     | false => rfl
     | true =>
       exfalso
